@@ -355,4 +355,379 @@ theorem param_spec (c : Nat) : ParamSpec c (ansiParam (c : Int)) (specEffect c) 
   · rw [ansiParam_ge (by omega), specEffect_ge (by omega)]; exact .unknown
 
 
+
+
+/-- one row of `EFFECT_CLEAR_DICT` against the terminal -/
+def clearAgrees (r : Nat × Nat) : Bool :=
+  if r.1 = 1 then Term.specEffect r.2 == some .reset
+  else match groupOfEff r.1 with
+    | some g => Term.specEffect r.2 == some (.clear g)
+    | none => false
+
+def clearCheck : Bool :=
+  Gen.clearTable.all clearAgrees &&
+  (List.range' 2 14).all (fun e => Gen.clearTable.any (fun r => r.1 == e))
+
+theorem clear_check : clearCheck = true := by decide
+
+theorem clear_row {e code : Nat} (h : (e, code) ∈ Gen.clearTable) (he : e ≠ 1) :
+    ∃ g, groupOfEff e = some g ∧ Term.specEffect code = some (.clear g) := by
+  have hc := clear_check
+  simp only [clearCheck, Bool.and_eq_true] at hc
+  have := List.all_eq_true.1 hc.1 _ h
+  simp only [clearAgrees, he, if_false] at this
+  split at this
+  · rename_i g hg; exact ⟨g, hg, by simpa using this⟩
+  · cases this
+
+theorem clear_row_reset {code : Nat} (h : (1, code) ∈ Gen.clearTable) : Term.specEffect code = some .reset := by
+  have hc := clear_check
+  simp only [clearCheck, Bool.and_eq_true] at hc
+  have := List.all_eq_true.1 hc.1 _ h
+  simpa [clearAgrees] using this
+
+theorem clear_total {e : Nat} (h2 : 2 ≤ e) (h15 : e ≤ 15) : ∃ code, (e, code) ∈ Gen.clearTable := by
+  have hc := clear_check
+  simp only [clearCheck, Bool.and_eq_true] at hc
+  have := List.all_eq_true.1 hc.2 e (List.mem_range'.2 ⟨e - 2, by omega, by omega⟩)
+  simp only [List.any_eq_true, beq_iff_eq] at this
+  obtain ⟨⟨e', code⟩, hm, rfl⟩ := this
+  exact ⟨code, hm⟩
+
+/-! ## the abstraction function -/
+
+/-- the codes of a setting text, if every parameter is a number -/
+def settingVal (t : Str) : Option (List Nat) :=
+  if (Term.params t).all Option.isSome then some ((Term.params t).filterMap id) else none
+
+/-- what a dict entry filed under group `g` stands for: its codes, except that the default font
+    (code 10, which the library files as an *apply* of FONT_TYPE) stands for "nothing set" -/
+def entryVal (g : Group) (s : Setting) : Option Val :=
+  if g = .font ∧ settingVal s.txt = some [10] then none else settingVal s.txt
+
+/-- the terminal state a `settings_to_dict` result stands for -/
+def alpha (d : PyDict) : Term.TState := fun g =>
+  (d.find? (fun kv => groupOfEff kv.1 == some g)).bind (fun kv => entryVal g kv.2)
+
+theorem settingVal_of_params {t : Str} {vals : List Nat} (h : Term.params t = vals.map some) :
+    settingVal t = some vals := by
+  have h1 : (vals.map some).all Option.isSome = true := by simp
+  have h2 : (vals.map some).filterMap id = vals := by simp [List.filterMap_map]
+  simp [settingVal, h, h2]
+
+theorem groupOfEff_beq (k : Nat) (g : Group) : (groupOfEff k == some g) = (k == effOfGroup g) := by
+  rw [Bool.eq_iff_iff]; simp [groupOfEff_eq_some]
+
+theorem effOfGroup_inj {g g' : Group} (h : effOfGroup g = effOfGroup g') : g = g' := by
+  have := groupOfEff_effOfGroup g
+  rw [h, groupOfEff_effOfGroup] at this
+  exact (Option.some.inj this).symm
+
+theorem alpha_eq (d : PyDict) (g : Group) :
+    alpha d g = (d.find? (fun kv => kv.1 == effOfGroup g)).bind (fun kv => entryVal g kv.2) := by
+  simp only [alpha, groupOfEff_beq]
+
+theorem alpha_nil : alpha [] = Term.default := rfl
+
+theorem find_insert (d : PyDict) (e : Nat) (s : Setting) (k : Nat) :
+    (d.insert e s).find? (fun kv => kv.1 == k) =
+      if k = e then some (e, s) else d.find? (fun kv => kv.1 == k) := by
+  induction d with
+  | nil =>
+    by_cases h : k = e
+    · simp [PyDict.insert, h]
+    · have : (e == k) = false := by simpa using fun h' => h h'.symm
+      simp [PyDict.insert, h, this]
+  | cons kv rest ih =>
+    obtain ⟨k', v'⟩ := kv
+    by_cases hk : k' = e
+    · subst hk
+      by_cases h : k = k'
+      · subst h; simp [PyDict.insert]
+      · have : (k' == k) = false := by simpa using fun h' => h h'.symm
+        simp [PyDict.insert, h, this]
+    · have hk' : (k' == e) = false := by simpa using hk
+      simp only [PyDict.insert, hk', Bool.false_eq_true, if_false, List.find?_cons]
+      by_cases h : k' = k
+      · subst h; simp [hk]
+      · have : (k' == k) = false := by simpa using h
+        simp only [this, ih]
+
+theorem find_erase (d : PyDict) (e : Nat) (k : Nat) :
+    (d.erase e).find? (fun kv => kv.1 == k) =
+      if k = e then none else d.find? (fun kv => kv.1 == k) := by
+  induction d with
+  | nil => simp [PyDict.erase]
+  | cons kv rest ih =>
+    obtain ⟨k', v'⟩ := kv
+    simp only [PyDict.erase] at ih
+    by_cases hk : k' = e
+    · subst hk
+      simp only [PyDict.erase, List.filter_cons, bne_self_eq_false, Bool.false_eq_true, if_false, ih]
+      by_cases h : k = k'
+      · simp [h]
+      · have : (k' == k) = false := by simpa using fun h' => h h'.symm
+        simp [h, this]
+    · have hk' : (k' != e) = true := by simpa using hk
+      simp only [PyDict.erase, List.filter_cons, hk', if_true, List.find?_cons, ih]
+      by_cases h : k' = k
+      · subst h; simp [hk]
+      · have : (k' == k) = false := by simpa using h
+        simp [this]
+
+theorem alpha_insert {e : Nat} {g : Group} (hg : groupOfEff e = some g) (d : PyDict) (s : Setting) :
+    alpha (d.insert e s) = fun g' => if g' = g then entryVal g s else alpha d g' := by
+  funext g'
+  rw [groupOfEff_eq_some] at hg
+  rw [alpha_eq, alpha_eq, find_insert]
+  by_cases h : g' = g
+  · subst h; simp [hg]
+  · have : effOfGroup g' ≠ e := fun h' => h (effOfGroup_inj (h'.trans hg))
+    simp [h, this]
+
+theorem alpha_erase {e : Nat} {g : Group} (hg : groupOfEff e = some g) (d : PyDict) :
+    alpha (d.erase e) = (alpha d).drop g := by
+  funext g'
+  rw [groupOfEff_eq_some] at hg
+  rw [TState.drop, alpha_eq, alpha_eq, find_erase]
+  by_cases h : g' = g
+  · subst h; simp [hg]
+  · have : effOfGroup g' ≠ e := fun h' => h (effOfGroup_inj (h'.trans hg))
+    simp [h, this]
+
+
+/-! ## group texts -/
+
+/-- the numbers of a digits-only setting text -/
+def valsOf (t : Str) : List Nat := (Py.splitOnChar ';' t).map Py.digitsVal
+
+/-- the shapes `isGroupTxt` admits: one code that does not open an extended colour, or a complete
+    extended-colour group -/
+inductive GroupVals : List Nat → Prop
+  | single (c : Nat) : c ≠ 38 → c ≠ 48 → c ≠ 58 → GroupVals [c]
+  | idx (c n : Nat) : (c = 38 ∨ c = 48 ∨ c = 58) → n ≤ 255 → GroupVals [c, 5, n]
+  | rgb (c r g b : Nat) : (c = 38 ∨ c = 48 ∨ c = 58) → r ≤ 255 → g ≤ 255 → b ≤ 255 →
+      GroupVals [c, 2, r, g, b]
+
+theorem isGroupTxt_spec {t : Str} (h : isGroupTxt t = true) :
+    (∀ it ∈ Py.splitOnChar ';' t, Py.isdigit it = true) ∧ GroupVals (valsOf t) := by
+  unfold isGroupTxt at h
+  simp only [Bool.and_eq_true, List.all_eq_true] at h
+  refine ⟨h.1, ?_⟩
+  have h2 := h.2
+  unfold valsOf
+  split at h2
+  · rename_i c heq; rw [heq]; simp at h2; exact .single c h2.1.1 h2.1.2 h2.2
+  · rename_i c n heq; rw [heq]; simp at h2; exact .idx c n (or_assoc.1 h2.1) h2.2
+  · rename_i c r g b heq; rw [heq]; simp at h2
+    exact .rgb c r g b (or_assoc.1 h2.1.1.1) h2.1.1.2 h2.1.2 h2.2
+  · cases h2
+
+theorem isGroupTxt_of_spec {t : Str} (h1 : ∀ it ∈ Py.splitOnChar ';' t, Py.isdigit it = true)
+    (h2 : GroupVals (valsOf t)) : isGroupTxt t = true := by
+  unfold isGroupTxt
+  simp only [Bool.and_eq_true, List.all_eq_true]
+  refine ⟨h1, ?_⟩
+  unfold valsOf at h2
+  generalize List.map Py.digitsVal (Py.splitOnChar ';' t) = l at h2
+  cases h2 with
+  | single c a b d => simp [a, b, d]
+  | idx c n hc hn => rcases hc with rfl | rfl | rfl <;> simp [hn]
+  | rgb c r g b hc hr hg hb => rcases hc with rfl | rfl | rfl <;> simp [hr, hg, hb]
+
+/-- model and terminal read the same numbers from a digits-only text -/
+theorem params_of_digits {t : Str} (h : ∀ it ∈ Py.splitOnChar ';' t, Py.isdigit it = true) :
+    Term.params t = (valsOf t).map some := by
+  unfold Term.params valsOf
+  rw [splitSemi_eq, List.map_map]
+  apply List.map_congr_left
+  intro it hit
+  have := isdigit_iff.1 (h it hit)
+  exact param_digits this.1 this.2
+
+/-- `get_initial_param` of a digits-only text is the `AnsiParam` of its first number -/
+theorem initialParam_of_digits {t : Str} (h : ∀ it ∈ Py.splitOnChar ';' t, Py.isdigit it = true) :
+    SettingTxt.initialParam t = ((valsOf t).head?.map (fun c => ((c : Nat) : Int))).bind ansiParam := by
+  unfold SettingTxt.initialParam valsOf
+  cases hs : Py.splitOnChar ';' t with
+  | nil => exact absurd hs (splitOnChar_ne_nil _ _)
+  | cons v rest =>
+    have := isdigit_iff.1 (h v (by simp [hs]))
+    simp [int_digits this.1 this.2]
+
+
+/-! ## feed algebra: a complete group is consumed as a unit -/
+
+theorem specEffect_of_extCode {c : Nat} (hc : c = 38 ∨ c = 48 ∨ c = 58) :
+    ∃ g, specEffect c = some (.ext g) := by
+  rcases hc with rfl | rfl | rfl
+  · exact ⟨_, specEffect_38⟩
+  · exact ⟨_, specEffect_48⟩
+  · exact ⟨_, specEffect_58⟩
+
+/-- a single code that is not 38/48/58 is consumed on its own -/
+theorem feed_single {c : Nat} (h38 : c ≠ 38) (h48 : c ≠ 48) (h58 : c ≠ 58) (st : TState) (rest) :
+    feed st (some c :: rest) = feed (feed st [some c]) rest := by
+  cases hs : specEffect c with
+  | none => rw [feed_unknown hs, feed_unknown hs, feed_nil]
+  | some a =>
+    cases a with
+    | reset => rw [feed_reset hs, feed_reset hs, feed_nil]
+    | set g => rw [feed_set hs, feed_set hs, feed_nil]
+    | clear g => rw [feed_clear hs, feed_clear hs, feed_nil]
+    | ext g => rcases specEffect_ext hs with h | h | h <;> simp_all
+
+/-- **a complete group is consumed as a unit** -/
+theorem feed_group {vals : List Nat} (h : GroupVals vals) (st : TState) (rest : List (Option Nat)) :
+    feed st (vals.map some ++ rest) = feed (feed st (vals.map some)) rest := by
+  cases h with
+  | single c a b d => exact feed_single a b d st rest
+  | idx c n hc hn =>
+    obtain ⟨g, hg⟩ := specEffect_of_extCode hc
+    simp only [List.map_cons, List.map_nil, List.cons_append, List.nil_append]
+    rw [feed_ext5 hg, feed_ext5 hg, feed_nil]
+  | rgb c r g b hc hr hg hb =>
+    obtain ⟨gr, hgr⟩ := specEffect_of_extCode hc
+    simp only [List.map_cons, List.map_nil, List.cons_append, List.nil_append]
+    rw [feed_ext2 hgr, feed_ext2 hgr, feed_nil]
+
+theorem feed_groupTxt {t : Str} (h : isGroupTxt t = true) (st : TState) (rest : List (Option Nat)) :
+    feed st (Term.params t ++ rest) = feed (feed st (Term.params t)) rest := by
+  obtain ⟨h1, h2⟩ := isGroupTxt_spec h
+  rw [params_of_digits h1]
+  exact feed_group h2 st rest
+
+theorem codesOf_nil : codesOf [] = [] := rfl
+theorem codesOf_cons (s : Setting) (l : List Setting) : codesOf (s :: l) = Term.params s.txt ++ codesOf l := by
+  simp [codesOf]
+theorem codesOf_append (l l' : List Setting) : codesOf (l ++ l') = codesOf l ++ codesOf l' := by
+  simp [codesOf]
+
+/-- settings that are complete groups can be fed one list after the other -/
+theorem feed_codesOf_append' {l : List Setting} (h : ∀ s ∈ l, isGroupTxt s.txt = true) (st : TState)
+    (rest : List (Option Nat)) : feed st (codesOf l ++ rest) = feed (feed st (codesOf l)) rest := by
+  induction l generalizing st with
+  | nil => simp [codesOf_nil, feed_nil]
+  | cons s l ih =>
+    have hs := h s (by simp)
+    have hl : ∀ s ∈ l, isGroupTxt s.txt = true := fun x hx => h x (by simp [hx])
+    rw [codesOf_cons, List.append_assoc, feed_groupTxt hs, ih hl, feed_groupTxt hs st (codesOf l)]
+
+theorem feed_codesOf_append {l : List Setting} (h : ∀ s ∈ l, isGroupTxt s.txt = true) (st : TState)
+    (l' : List Setting) : feed st (codesOf (l ++ l')) = feed (feed st (codesOf l)) (codesOf l') := by
+  rw [codesOf_append, feed_codesOf_append' h]
+
+
+/-! ## `settings_to_dict` against the terminal -/
+
+/-- one iteration of `settings_to_dict` -/
+def dictStep (d : PyDict) (s : Setting) : PyDict :=
+  match SettingTxt.initialParam s.txt with
+  | none => d
+  | some (eff, fn) =>
+    if fn == Gen.fnApply then d.insert eff s
+    else if fn == Gen.fnClear then d.erase eff
+    else []
+
+theorem settingsToDict_eq (ss : List Setting) (d : PyDict) : settingsToDict ss d = ss.foldl dictStep d := rfl
+theorem settingsToDict_nil (d : PyDict) : settingsToDict [] d = d := rfl
+theorem settingsToDict_cons (s : Setting) (ss : List Setting) (d : PyDict) :
+    settingsToDict (s :: ss) d = settingsToDict ss (dictStep d s) := rfl
+theorem settingsToDict_append (l l' : List Setting) (d : PyDict) :
+    settingsToDict (l ++ l') d = settingsToDict l' (settingsToDict l d) := by
+  simp [settingsToDict_eq, List.foldl_append]
+
+theorem entryVal_of_params {s : Setting} {vals : List Nat} (h : Term.params s.txt = vals.map some)
+    (g : Group) (hv : vals ≠ [10]) : entryVal g s = some vals := by
+  simp [entryVal, settingVal_of_params h, hv]
+
+theorem entryVal_font10 {s : Setting} (h : Term.params s.txt = [some 10]) : entryVal .font s = none := by
+  have : settingVal s.txt = some [10] := settingVal_of_params (vals := [10]) h
+  simp [entryVal, this]
+
+theorem specEffect_10 : specEffect 10 = some (.clear .font) := by decide
+
+/-- what `settings_to_dict` does with one group text is what the terminal does with its codes -/
+theorem alpha_dictStep {s : Setting} (h : isGroupTxt s.txt = true) (d : PyDict) :
+    alpha (dictStep d s) = feed (alpha d) (Term.params s.txt) := by
+  obtain ⟨h1, h2⟩ := isGroupTxt_spec h
+  have hp := params_of_digits h1
+  have hi := initialParam_of_digits h1
+  have hR := fn_distinct
+  unfold dictStep
+  rw [hp, hi]
+  generalize valsOf s.txt = vals at *
+  cases h2 with
+  | single c a b cc =>
+    have ps := param_spec c
+    simp only [List.head?_cons, Option.map_some, Option.bind_some, List.map_cons, List.map_nil]
+    generalize ansiParam (c : Int) = q at ps
+    cases hs : specEffect c with
+    | none =>
+      rw [hs] at ps; cases ps
+      rw [feed_unknown hs, feed_nil]
+    | some act =>
+      rw [hs] at ps
+      cases ps with
+      | reset e =>
+        have e1 : (Gen.fnResetAll == Gen.fnApply) = false := by simpa using hR.1
+        have e2 : (Gen.fnResetAll == Gen.fnClear) = false := by simpa using hR.2.1
+        simp only [e1, e2, Bool.false_eq_true, if_false]
+        rw [feed_reset hs, feed_nil]; rfl
+      | clear e g hg =>
+        have e1 : (Gen.fnClear == Gen.fnApply) = false := by simpa using fun h => hR.2.2 h.symm
+        simp only [e1, Bool.false_eq_true, if_false, beq_self_eq_true, if_true]
+        rw [feed_clear hs, feed_nil, alpha_erase hg]
+      | set e g hg =>
+        simp only [beq_self_eq_true, if_true]
+        have hc10 : c ≠ 10 := by
+          intro h10; subst h10; rw [specEffect_10] at hs; cases hs
+        rw [feed_set hs, feed_nil, alpha_insert hg,
+          entryVal_of_params (vals := [c]) hp g (by simpa using hc10)]
+        rfl
+      | ext e g hg => rcases specEffect_ext hs with h | h | h <;> simp_all
+      | font10 e g h10 hg =>
+        subst h10
+        rw [specEffect_10] at hs
+        cases hs
+        simp only [beq_self_eq_true, if_true]
+        rw [feed_clear specEffect_10, feed_nil, alpha_insert hg, entryVal_font10 hp]
+        rfl
+  | idx c n hc hn =>
+    obtain ⟨g, hs⟩ := specEffect_of_extCode hc
+    have ps := param_spec c
+    simp only [List.head?_cons, Option.map_some, Option.bind_some, List.map_cons, List.map_nil]
+    generalize ansiParam (c : Int) = q at ps
+    rw [hs] at ps
+    cases ps with
+    | ext e _ hg =>
+      simp only [beq_self_eq_true, if_true]
+      rw [feed_ext5 hs, feed_nil, alpha_insert hg,
+        entryVal_of_params (vals := [c, 5, n]) hp g (by simp), if_pos hn]
+      rfl
+  | rgb c r gg b hc hr hg' hb =>
+    obtain ⟨g, hs⟩ := specEffect_of_extCode hc
+    have ps := param_spec c
+    simp only [List.head?_cons, Option.map_some, Option.bind_some, List.map_cons, List.map_nil]
+    generalize ansiParam (c : Int) = q at ps
+    rw [hs] at ps
+    cases ps with
+    | ext e _ hg =>
+      simp only [beq_self_eq_true, if_true]
+      rw [feed_ext2 hs, feed_nil, alpha_insert hg,
+        entryVal_of_params (vals := [c, 2, r, gg, b]) hp g (by simp), if_pos ⟨hr, hg', hb⟩]
+      rfl
+
+/-- `settings_to_dict(ss, old)` stands for feeding the codes of `ss` to the terminal in state `old`
+    (no assumption on `old` is needed) -/
+theorem alpha_settingsToDict {ss : List Setting} (h : ∀ s ∈ ss, isGroupTxt s.txt = true) (old : PyDict) :
+    alpha (settingsToDict ss old) = feed (alpha old) (codesOf ss) := by
+  induction ss generalizing old with
+  | nil => rw [settingsToDict_nil, codesOf_nil, feed_nil]
+  | cons s ss ih =>
+    have hs := h s (by simp)
+    rw [settingsToDict_cons, ih (fun x hx => h x (by simp [hx])), alpha_dictStep hs, codesOf_cons,
+      feed_groupTxt hs]
+
+
 end Eff
